@@ -30,8 +30,8 @@ def mk(mps, big):
 
 
 def targets(tier):
-    small = [2, 3] if tier == "quick" else [1, 2, 3, 4, 5]
-    big = [4, 200, 512, 1024] if tier == "quick" else [7, 64, 200, 512, 1000, 1024]
+    small = [2, 3, 4] if tier == "quick" else [1, 2, 3, 4, 5, 6, 7, 8]
+    big = [200, 512, 1024] if tier == "quick" else [7, 64, 200, 512, 1000, 1024]
     return [mk(m, False) for m in small] + [mk(m, True) for m in big]
 
 
@@ -94,13 +94,41 @@ def frame_trace(rng, mps, nframes, data=None, max_tokens=5):
     return tr
 
 
+class Mirror:
+    """Just enough of the endpoint's sequencing (idle / sending data / sending ZLP) for the generator to know in
+    which cycles a new_frame strobe keeps the environment assumption.  Not part of any oracle."""
+    def __init__(self, mps):
+        self.mps = mps; self.st = 0; self.blf = 0; self.blp = mps
+    def nf_allowed(self, c):
+        req = c["endpoint"] == EP and c["is_in"] and c["ready_for_response"]
+        return self.st == 0 and not req
+    def step(self, c):
+        req = c["endpoint"] == EP and c["is_in"] and c["ready_for_response"]
+        if self.st == 0:
+            if req: self.st = 1 if self.blf else 2
+            if c["new_frame"]: self.blf = c["bytes_in_frame"]; self.blp = self.mps
+        elif self.st == 1:
+            if c["tx_ready"]:
+                term = self.blp <= 1 or self.blf <= 1
+                self.blf -= 1
+                self.blp = self.mps if term else self.blp - 1
+                if term: self.st = 0
+        else:
+            self.st = 0
+
+
 def noise_trace(rng, mps, n, data=None):
-    """Unstructured inputs (breaks the environment assumption freely: SOF while transmitting, byte counts
-    beyond 3*mps, ...): the lock-step/correspondence obligations must still agree wherever they apply."""
-    tr = []
+    """Unstructured inputs: tokens, tx.ready, stream and bytes_in_frame at random in every cycle; new_frame
+    strobes at random, but only in cycles where they keep the environment assumption (endpoint idle, no
+    request, byte count <= 3*mps) -- behaviour outside the assumption is not part of the property, and a
+    refactoring that changes it must not raise an alarm."""
+    tr = []; m = Mirror(mps)
     for _ in range(n):
-        c = _cyc(rng, nf=int(rng.random() < 0.05), req=int(rng.random() < 0.25), data=data)
-        if rng.random() < 0.7: c["bytes_in_frame"] = rng.randint(0, min(4095, 3 * mps + 2))
+        c = _cyc(rng, nf=int(rng.random() < 0.15), req=int(rng.random() < 0.25), data=data)
+        if c["new_frame"]:
+            c["bytes_in_frame"] = rng.randint(0, min(4095, 3 * mps))
+            if not m.nf_allowed(c): c["new_frame"] = 0
+        m.step(c)
         tr.append(c)
     return tr
 
@@ -115,12 +143,12 @@ def traces(target, rng, tier):
         for k in range(n // 2):
             out.append(noise_trace(rng, mps, rng.randint(10, 120)))
     else:
-        budget = (4000 if tier == "quick" else 40000)
+        budget = (3000 if tier == "quick" else 40000)
         total = 0
         while total < budget:
             t = frame_trace(rng, mps, rng.randint(1, 3), max_tokens=4)
             out.append(t); total += len(t)
-        for k in range(4 if tier == "quick" else 12):
+        for k in range(3 if tier == "quick" else 12):
             out.append(noise_trace(rng, mps, rng.randint(50, 400)))
     return out
 
@@ -201,8 +229,8 @@ ASSUMPTIONS = [
     "the PID of zero-length packets sent after a frame's data is not constrained (property text is silent; the code sends MDATA=3); "
     "a zero-byte frame's first ZLP must be DATA0; before the first new_frame the endpoint behaves like a zero-byte frame",
     "bytes_in_frame > 3 * max_packet_size is outside the property's quantifier (0..3 x max packet size) and outside the theorem",
-    "lock-step tie configurations: max_packet_size in {2,3} (quick) / {1,2,3,4,5} (thorough), endpoint_number = 1, explicit input "
-    "alphabets (see obligation_list); correspondence at max_packet_size in {4,200,512,1024} (quick) / {7,64,200,512,1000,1024}",
+    "lock-step tie configurations: max_packet_size in {2,3,4} (quick) / {1..8} (thorough), endpoint_number = 1, explicit input "
+    "alphabets (see obligation_list); correspondence additionally at max_packet_size in {200,512,1024} (quick) / {7,64,200,512,1000,1024}",
     "in the tie corollaries the environment assumption is evaluated on the model's outputs (env_ok/iso_menv), which the same "
     "theorem shows to be the netlist's outputs",
 ]
